@@ -22,7 +22,9 @@ HTTP_STATUS = [(200, 'OK'), (204, 'No Content'), (301, 'Moved'), (400, 'Bad Requ
 HTTP_HEADERS = ['none', '250; message="2.6.0 accepted"', '450; message="4.2.0 later"', '550; message="5.1.1 no such user"', 'garbage',
                 # the form WsgiEdge emits for a reply that carries the command it answered
                 '550; message="5.1.1 no such user"; command="RCPT"', '450; command="DATA"; message="4.3.0 busy"',
-                '250; message="2.6.0 accepted"; command="[SEND_DATA]"', '550; message="5.7.1 said \\"no\\""', '550']
+                '250; message="2.6.0 accepted"; command="[SEND_DATA]"', '550; message="5.7.1 said \\"no\\""', '550',
+                # three digits that are no reply code
+                '650; message="x"', '099; message="x"', '000; message="x"']
 HTTP_FAULTS = ['none', 'disconnect-before-response', 'reset', 'partial-response']
 
 
